@@ -36,7 +36,38 @@ def call(f, *args, **kwargs):
                     if x == args[0]:
                         return i
                 raise ValueError("value not in list")
+        if hasattr(f, "cache_info") and hasattr(f, "__wrapped__") and any_sym(args, kwargs):
+            return _memo_call(f, args, kwargs)
     return f(*args, **kwargs)
+
+
+_MEMO = {}
+
+
+def _memo_call(f, args, kwargs):
+    """functools.lru_cache / cache around a function, with symbolic arguments: the cache is modelled as an
+    association list per exploration run; a lookup hits when every argument compares equal (Python's ==, so
+    0.0 hits -0.0 and 1 hits 1.0, as in the real cache), otherwise the wrapped function runs"""
+    models._used("functools.lru_cache: association list with == on the arguments (eviction not modelled)")
+    c = cur()
+    store = _MEMO.get(id(f))
+    if store is None or store[0] is not c.solver:
+        store = _MEMO[id(f)] = (c.solver, [])
+    entries = store[1]
+    key = tuple(args) + tuple(sorted(kwargs.items()))
+    for k0, r0 in entries:
+        if len(k0) != len(key):
+            continue
+        hit = True
+        for a, b in zip(key, k0):
+            if not (a == b):
+                hit = False
+                break
+        if hit:
+            return r0
+    r = call(f.__wrapped__, *args, **kwargs)
+    entries.append((key, r))
+    return r
 
 
 def _dict_get(d, key, default=None):
